@@ -64,9 +64,11 @@ def run(rep: Report, tier: str) -> None:
         rep.check(srcs == want and it[0] == "xcall" and it[1].endswith("chain"), ra, JP, ga.qualname, "groups are built from the in, out and intra sets of the window", f"the grouping loop iterates {show(it)[:200]}; expected chain(in, out, intra transaction sets of computed_data) (a missing table loses that year's disposals or transfer fees)", loc(grp))
         body = [unparse(s) for s in grp.body]
         tv = grp.target.id if isinstance(grp.target, ast.Name) else "?"
-        ok = body == [f"{dname}.setdefault({tv}.timestamp.year, []).append({tv})"]
+        key = f"{tv}.timestamp.year"
+        explicit = [unparse(ast.parse(f"if {key} not in {dname}:\n    {dname}[{key}] = []").body[0]), f"{dname}[{key}].append({tv})"]  # the same grouping with an explicit membership test
+        ok = body == [f"{dname}.setdefault({key}, []).append({tv})"] or body == explicit
         rep.check(ok, ra, JP, ga.qualname, "group key = the transaction's own timestamp.year, in a dictionary (one group per year)", f"the grouping loop body is {body}; expected {dname}.setdefault(<entry>.timestamp.year, []).append(<entry>)", loc(grp))
-        rep.check(not any(isinstance(n, (ast.Continue, ast.Break, ast.If)) for n in ast.walk(grp)), ra, JP, ga.qualname, "every transaction of the window joins its year group", "the grouping loop skips some transactions", loc(grp))
+        rep.check(not any(isinstance(n, (ast.Continue, ast.Break)) or (isinstance(n, ast.If) and body != explicit) for n in ast.walk(grp)), ra, JP, ga.qualname, "every transaction of the window joins its year group", "the grouping loop skips some transactions", loc(grp))
     # the per-year loop iterates that dictionary's items
     it2 = per_year.iter
     it2_txt = unparse(it2)
@@ -75,13 +77,18 @@ def run(rep: Report, tier: str) -> None:
     calls = [n for n in ast.walk(per_year) if isinstance(n, ast.Call) and isinstance(n.func, ast.Attribute) and n.func.attr == "__generate_asset_year"]
     ok = len(calls) == 1 and not any(isinstance(a, (ast.If, ast.Try)) for a in ancestors(calls[0]) if a is not per_year and a is not ga.node and not isinstance(a, (ast.ClassDef, ast.For, ast.Assign)))
     rep.check(ok, ra, JP, ga.qualname, "each group is written by exactly one unconditional __generate_asset_year call", f"{len(calls)} (possibly conditional) per-year calls per group", loc(per_year))
-    kw = {k.arg: unparse(k.value) for k in calls[0].keywords} if calls else {}
+    from ..loader import call_args
+
+    kw = {p: unparse(v) for p, v in call_args(calls[0], gy.param_names[1:]).items()} if calls else {}
     yv, tsv = (per_year.target.elts[0].id, per_year.target.elts[1].id) if isinstance(per_year.target, ast.Tuple) and len(per_year.target.elts) == 2 else ("?", "?")
-    ok = kw.get("asset") == "asset" and kw.get("year") == yv and kw.get("transaction_list") in (f"sorted({tsv}, key=lambda x: x.timestamp)", f"list({tsv})") and kw.get("output_file") == "output_file"
+    ok = kw.get("asset") == "asset" and kw.get("year") == yv and kw.get("transaction_list") in (f"sorted({tsv}, key=lambda x: x.timestamp)", f"sorted({tsv}, key=attrgetter('timestamp'))", f"sorted({tsv}, key=operator.attrgetter('timestamp'))", f"list({tsv})") and kw.get("output_file") == "output_file"
     rep.check(ok, ra, JP, ga.qualname, "the call receives this group's year and its transactions sorted by time", f"per-year call arguments: {kw}", loc(calls[0]) if calls else loc(per_year))
     # per-year writer: template copied once under the name builder, rows
     copies = [n for n in ast.walk(gy.node) if isinstance(n, ast.Call) and isinstance(n.func, ast.Attribute) and n.func.attr == "copy" and "ASSET_TEMPLATE_SHEET" in unparse(n)]
-    ok = len(copies) == 1 and unparse(copies[0]) == "output_file.sheets[self.ASSET_TEMPLATE_SHEET].copy(newname=self.get_tax_sheet_name(asset, year))" and "output_file.sheets += asset_year_sheet" in [unparse(s) for s in gy.node.body]
+    own_name = "self.get_tax_sheet_name(asset, year)"
+    name_locals = {unparse(a.target if isinstance(a, ast.AnnAssign) else a.targets[0]) for a in ast.walk(gy.node) if isinstance(a, (ast.Assign, ast.AnnAssign)) and getattr(a, "value", None) is not None and unparse(a.value) == own_name}
+    name_locals = {n for n in name_locals if sum(1 for a in ast.walk(gy.node) if isinstance(a, ast.Name) and a.id == n and isinstance(a.ctx, ast.Store)) == 1}  # bound once
+    ok = len(copies) == 1 and unparse(copies[0]) in {f"output_file.sheets[self.ASSET_TEMPLATE_SHEET].copy(newname={x})" for x in {own_name} | name_locals} and "output_file.sheets += asset_year_sheet" in [unparse(s) for s in gy.node.body]
     rep.check(ok, ra, JP, gy.qualname, "the asset-year sheet is one copy of the template named get_tax_sheet_name(asset, year)", f"template copies in the per-year writer: {[short(c, 120) for c in copies]}", loc(gy.node))
     rows = [n for n in gy.node.body if isinstance(n, ast.For) and unparse(n.iter) == "transaction_list"]
     if len(rows) != 1:
@@ -152,7 +159,7 @@ def run(rep: Report, tier: str) -> None:
         if isinstance(node, ast.JoinedStr) and any(isinstance(v, ast.Constant) and "='" in str(v.value) for v in node.values):
             fv = [v for v in node.values if isinstance(v, ast.FormattedValue)]
             first = unparse(fv[0].value) if fv else ""
-            ok = first.startswith("self.get_tax_sheet_name(") or first == "previous_year_sheet_name" and any(isinstance(a, (ast.Assign, ast.AnnAssign)) and unparse(a.target if isinstance(a, ast.AnnAssign) else a.targets[0]) == "previous_year_sheet_name" and unparse(a.value).startswith("self.get_tax_sheet_name(") for a in ast.walk(gy.node))
+            ok = first.startswith("self.get_tax_sheet_name(") or first in name_locals or first == "previous_year_sheet_name" and any(isinstance(a, (ast.Assign, ast.AnnAssign)) and unparse(a.target if isinstance(a, ast.AnnAssign) else a.targets[0]) == "previous_year_sheet_name" and unparse(a.value).startswith("self.get_tax_sheet_name(") for a in ast.walk(gy.node))
             rep.check(ok, rc, JP, gy.qualname, f"cross-sheet formula names its sheet through get_tax_sheet_name: {short(node, 60)}", f"{short(node, 100)} names the referenced sheet by {first or 'a literal'}, not by self.get_tax_sheet_name(...): with a translated sheet-name format (e.g. -g kl) the reference points at a sheet that does not exist", loc(node))
     guard = [n for n in ast.walk(gy.node) if isinstance(n, ast.If) and "previous_year_sheet_name" in unparse(n.body[0] if n.body else n)]
     ok = len(guard) == 1 and "previous_year_row_offset != 0" in unparse(guard[0].test)
